@@ -187,7 +187,12 @@ def seq_sum(I, x, frame=None, node=None, start=0):
         lem = (spec.get("sum_lemmas") or {}).get(key)
         if lem is None:
             raise Unsupported(f"sum over a symbolic sequence ({key}) needs a closed-form lemma in the sidecar")
-        closed = I.eval(_ast.parse(lem, mode="eval").body, frame)
+        from .contracts import SPEC_HELPERS
+        from .interp import Frame as _Frame
+
+        lf = _Frame(frame.module, frame.func, frame, frame.spec)
+        lf.vars.update(SPEC_HELPERS)
+        closed = I.eval(_ast.parse(lem, mode="eval").body, lf)
         ctx = I.ctx
         where = ctx.where[-1]
         ctx.oblige(f"{where}/lemma/sum({key})/base", v_cmp("Eq", I.call(closed, [0], {}), 0), {"lemma": True})
@@ -409,7 +414,13 @@ def b_range(I, args, kw):
     elif len(args) == 2:
         lo, hi = args
     else:
-        raise Unsupported("symbolic range with step")
+        lo, hi, step = args
+        zs = to_int_z(step)
+        I.ctx.oblige_implicit("range-step-positive", zs > 0)  # only positive steps are modelled
+        zl, zh = to_int_z(lo), to_int_z(hi)
+        # ceil((hi - lo) / step) for step > 0
+        length = mk(z3.If(zh > zl, (zh - zl + zs - 1) / zs, 0))
+        return SymSeq(length, lambda i: v_add(lo, v_mul(i, step)), "range")
     zl, zh = to_int_z(lo), to_int_z(hi)
     length = mk(z3.If(zh > zl, zh - zl, 0))
     return SymSeq(length, lambda i: v_add(lo, i), "range",
@@ -644,7 +655,28 @@ def call_builtin_method(I, obj, name, args, kw):
                 return getattr(obj, name)(*args)
             if name == "join":
                 return obj.join(I.iter_concrete(args[0]))
+    if isinstance(obj, SymSeq):
+        if name == "append":
+            old_len, old_get, old_ps, x = obj.length, obj.getter, obj.psum, args[0]
+
+            def getter(i, _l=old_len, _g=old_get, _x=x):
+                c = v_cmp("Eq", i, _l)
+                if isinstance(c, bool):
+                    return _x if c else _g(i)
+                return I.ctx.merged(lambda: _x if I.ctx.branch(c) else _g(i))
+
+            obj.length = v_add(old_len, 1)
+            obj.getter = getter
+            if old_ps is not None and kind_of(x) in ("int", "real"):
+                obj.psum = lambda k, _l=old_len, _p=old_ps, _x=x: v_ite(v_cmp("LtE", k, _l), _p(k), v_add(_p(_l), _x))
+            else:
+                obj.psum = None
+            return None
+        if name == "copy":
+            return obj
     if isinstance(obj, (Sym, int, Fraction)):
+        if name == "item":
+            return obj
         if name == "is_integer":
             if concrete(obj):
                 return Fraction(obj).denominator == 1
@@ -758,6 +790,22 @@ def np_arctan2(I, args, kw):
     return I.ctx.uf_apply("arctan2", [args[0], args[1]])
 
 
+@_ext("numpy.round")
+@_elementwise
+def np_round(I, args, kw):
+    x = args[0]
+    d = args[1] if len(args) > 1 else kw.get("decimals", 0)
+    if not isinstance(d, int):
+        raise Unsupported("np.round with symbolic decimals")
+    I.ctx.trusted.add("numpy.round(x, d) = round-half-even(x * 10^d) / 10^d over the reals (A-REAL)")
+    scale = 10 ** d
+    r = b_round(I, [v_mul(x, scale)], {})
+    return v_truediv(to_float(I, r), scale, None)
+
+
+_EXTERNALS["numpy.around"] = _EXTERNALS["numpy.round"]
+
+
 @_ext("numpy.abs")
 @_elementwise
 def np_abs(I, args, kw):
@@ -859,9 +907,9 @@ def np_prod(I, args, kw):
     return r
 
 
-@_ext("numpy.sum")
-def np_sum(I, args, kw):
-    return seq_sum(I, args[0])
+@_ext_frame("numpy.sum")
+def np_sum(I, args, kw, frame=None, node=None):
+    return seq_sum(I, args[0], frame, node)
 
 
 @_ext("numpy.maximum")
